@@ -1033,6 +1033,13 @@ func (c *Conn) handlePackets() (wasProcessed bool, _ error) {
 		if !hasMorePackets {
 			break
 		}
+		// Stop processing packets once the connection has been closed, e.g. when it was destroyed
+		// while handling a Version Negotiation packet: packets queued behind the one that closed
+		// the connection must not be processed anymore. The run loop exits on its next iteration,
+		// and drains the queue.
+		if c.closeErr.Load() != nil {
+			break
+		}
 		// Prioritize sending of new CRYPTO data.
 		// This is especially relevant when processing 0-RTT packets.
 		if !c.handshakeComplete && (c.initialStream.HasData() || c.handshakeStream.HasData()) {
